@@ -9,7 +9,7 @@ Operations (JSON-able lists):
   ["read", v]
   ["precompute"]
   ["revert"]                         full
-  ["revert", [0,1,...]]              per-individual (1 = revert that individual)
+  ["revert", [0,1,...]]              per-individual (1 = revert that individual); ["revert", mask, "uint8" | "int64"]: 0/1 mask of an integer dtype
   ["clone", disable_auto_fork, keep_last_fork]      exploration continues on the clone
   ["mode", None|"REF"|"COPY"]
   ["ctxset", mode, v, x]             `with state.auto_fork(mode): state[v] = x`
@@ -412,7 +412,8 @@ def apply_op(u: Universe, st: State, ref: Ref, op):
             if mask is None:
                 st.revert()
             else:
-                st.revert(torch.tensor(mask, dtype=torch.bool))
+                # (optional third field: the mask is handed over as a 0/1 tensor of an integer dtype, which `revert` converts)
+                st.revert(torch.tensor(mask, dtype=getattr(torch, op[2]) if len(op) > 2 else torch.bool))
             raised = False
         except LeaspyInputError:
             raised = True
@@ -613,6 +614,11 @@ def menu(u: Universe, st: State, ref: Ref, *, accumulate=True, clones=True, mode
             all_masks = [[(m >> i) & 1 for i in range(u.n_ind)] for m in range(2 ** u.n_ind)]
         for m in all_masks:
             ops.append(["revert", list(m)])
+        proper = [list(m) for m in all_masks if 0 < sum(m) < len(m)]
+        if proper:
+            ops.append(["revert", proper[0], "uint8"])
+            if len(proper) > 1:
+                ops.append(["revert", proper[-1], "int64"])
     if clones:
         ops += [["clone", False, False], ["clone", True, False], ["clone", False, True]]
     for m in modes:
